@@ -10,6 +10,15 @@ import Proofs.Lemmas.Core
 namespace Cstruct.Core
 open Cstruct
 
+/-- **Extension theorem** (the C08 statement "a value returned from a shortened input is the value returned from the complete
+    input"). If parsing succeeds on `d1`, it succeeds with the very same value and end position on every input `d2` that
+    extends `d1`. For every plain type (no to-end-of-stream array, no union), packed, aligned or mixed, with or without
+    bit-fields, every context, every start position; no assumption on the value. -/
+theorem read_extend (cfg : Cfg) (ty : Ty) (hplain : ty.plain = true) (ctx : Ctx) (d1 : Bytes) (pos : Nat) (v : Val) (p : Nat)
+    (hr : read cfg ty ctx d1 pos = .ok (v, p)) (d2 : Bytes) (hpre : d1 <+: d2) :
+    read cfg ty ctx d2 pos = .ok (v, p) :=
+  Lemmas.read_extend cfg ty hplain ctx d1 pos v p hr d2 hpre
+
 /-- **Prefix (window) theorem.** If parsing succeeds on input `d1` and ends at position `p`, then it succeeds with the very
     same value and end position on every input `d2` that starts with the first `p` bytes of `d1` (all of `d1` when `d1` is
     shorter than `p`, which happens when trailing alignment padding is skipped past the end). For every plain type, every
@@ -66,7 +75,8 @@ theorem read_size_S (cfg : Cfg) (al : Bool) (ty : Ty) (hS : ty.fragS cfg = true)
     (hp : ty.pow2Aligned cfg) (ctx : Ctx) (data : Bytes) (pos n : Nat)
     (hsz : ty.size cfg = some n) (hlen : pos + n ≤ data.length) (hal : ty.alignsDivide cfg pos = true) :
     ∃ v, read cfg ty ctx data pos = .ok (v, pos + n) ∧ HasTy cfg v ty := by
-  sorry
+  exact Lemmas.rs_ty cfg al ty hS hu hp ctx data pos n hsz hlen
+    (fun _ => Lemmas.sAlign_dvd_of_alignsDivide cfg pos ty hal)
 
 /-! ### Non-vacuity -/
 def cfg0 : Cfg := { endian := .big, ptr := .pint 4 false, ptrAlign := 4, consts := [] }
@@ -79,7 +89,9 @@ example : HasTy cfg0 v0 ty0 := by
   exact .struct (.cons (.int rfl (by decide)) (.cons (.struct (.cons (.int rfl (by decide)) (.cons (.chars rfl) .nil)))
     (.cons (.ptr (by decide)) .nil)))
 
+#print axioms read_extend
 #print axioms roundtrip_S
 #print axioms write_total_S
 #print axioms write_reject
+#print axioms read_size_S
 end Cstruct.Core
